@@ -65,6 +65,12 @@ def _GenerateConstant(cv: LinearIR.ConstantValue) -> WebAssembly.Instruction:
     t = cv.Type
     if t.IsScalar():
         if isinstance(t, LinearIR.IntegerType):
+            # i32.const takes a signed 32 bit immediate, anything else would
+            # produce an over-long (malformed) encoding
+            if not -(2**31) <= cv.Value < 2**31:
+                raise RuntimeError(
+                    f"Constant does not fit into an i32: {cv.Value}"
+                )
             return WebAssembly.Instruction(
                 WebAssembly.opcodes["i32.const"], (cv.Value,)
             )
